@@ -38,6 +38,18 @@ unsafe impl GlobalAlloc for CountingAlloc {
         System.alloc(l)
     }
     unsafe fn dealloc(&self, p: *mut u8, l: Layout) {
+        // C15's second observation point: while a watch is armed (only around a container
+        // operation of the protected-memory explorer), a block handed back to the GENERAL
+        // allocator must not hold a copy of the watched secret
+        let wl = WATCH_LEN.load(std::sync::atomic::Ordering::SeqCst);
+        if wl >= 8 && l.size() >= wl {
+            let w = std::slice::from_raw_parts(WATCH_PTR.load(std::sync::atomic::Ordering::SeqCst) as *const u8, wl);
+            let b = std::slice::from_raw_parts(p as *const u8, l.size());
+            if b.windows(wl).any(|x| x == w) {
+                WATCH_HITS.fetch_add(1, std::sync::atomic::Ordering::SeqCst);
+                WATCH_HIT_SIZE.store(l.size(), std::sync::atomic::Ordering::SeqCst);
+            }
+        }
         System.dealloc(p, l)
     }
     unsafe fn realloc(&self, p: *mut u8, l: Layout, n: usize) -> *mut u8 {
@@ -56,6 +68,35 @@ unsafe impl GlobalAlloc for CountingAlloc {
         });
         System.alloc_zeroed(l)
     }
+}
+pub static WATCH_PTR: std::sync::atomic::AtomicPtr<u8> = std::sync::atomic::AtomicPtr::new(std::ptr::null_mut());
+pub static WATCH_LEN: std::sync::atomic::AtomicUsize = std::sync::atomic::AtomicUsize::new(0);
+pub static WATCH_HITS: std::sync::atomic::AtomicUsize = std::sync::atomic::AtomicUsize::new(0);
+pub static WATCH_HIT_SIZE: std::sync::atomic::AtomicUsize = std::sync::atomic::AtomicUsize::new(0);
+/// arm the watch on the first `min(len, 16)` bytes of `secret` (which must stay alive and
+/// unmoved until `watch_disarm`); returns false when the secret is too short to be told from noise
+pub fn watch_arm(secret: &[u8]) -> bool {
+    // the watched window: the first run of min(len, 16) >= 8 bytes with at least 6 distinct
+    // values (zeros, fill bytes and other low-entropy runs occur in innocent blocks too)
+    let w = secret.len().min(16);
+    if w < 8 {
+        return false;
+    }
+    let Some(off) = (0..=secret.len() - w).find(|&o| {
+        let mut seen = [false; 256];
+        secret[o..o + w].iter().filter(|b| !std::mem::replace(&mut seen[**b as usize], true)).count() >= 6
+    }) else {
+        return false;
+    };
+    WATCH_HITS.store(0, std::sync::atomic::Ordering::SeqCst);
+    WATCH_PTR.store(secret[off..].as_ptr() as *mut u8, std::sync::atomic::Ordering::SeqCst);
+    WATCH_LEN.store(w, std::sync::atomic::Ordering::SeqCst);
+    true
+}
+/// disarm; returns (number of released blocks that held the secret, size of the last one)
+pub fn watch_disarm() -> (usize, usize) {
+    WATCH_LEN.store(0, std::sync::atomic::Ordering::SeqCst);
+    (WATCH_HITS.swap(0, std::sync::atomic::Ordering::SeqCst), WATCH_HIT_SIZE.load(std::sync::atomic::Ordering::SeqCst))
 }
 fn reset_max() {
     MAX_REQ.with(|m| m.set(0));
@@ -108,6 +149,36 @@ fn targets() -> Vec<Target> {
             }),
         });
     }
+    // a box WITHOUT an ephemeral key (parsed as an ordinary box, or assembled from parts) handed
+    // to the sealed-box opening methods: an error, for every payload length
+    v.push(Target {
+        name: "DryocBox::from_bytes->unseal_to_vec (no ephemeral key)".into(),
+        overhead: 16,
+        sample: Box::new(|fx, n| aead::ref_wire(aead::Fam::Bx, &fx.ks, &vec![0x61u8; n.saturating_sub(16)])),
+        call: Box::new(|fx, w| {
+            guarded(AssertUnwindSafe(|| {
+                let Ok(b) = dryoc::dryocbox::VecBox::from_bytes(w) else { return false };
+                let kp: dryoc::keypair::KeyPair<SB<32>, SB<32>> = dryoc::keypair::KeyPair::from_slices(&fx.ks.pk_b, &fx.ks.sk_b).unwrap();
+                b.unseal_to_vec(&kp).is_ok()
+            }))
+        }),
+    });
+    v.push(Target {
+        name: "DryocBox::from_parts(no ephemeral key)->unseal".into(),
+        overhead: 16,
+        sample: Box::new(|fx, n| aead::ref_wire(aead::Fam::Bx, &fx.ks, &vec![0x61u8; n.saturating_sub(16)])),
+        call: Box::new(|fx, w| {
+            guarded(AssertUnwindSafe(|| {
+                if w.len() < 16 {
+                    return false;
+                }
+                let tag: [u8; 16] = w[..16].try_into().unwrap();
+                let b: dryoc::dryocbox::DryocBox<SB<32>, SB<16>, Vec<u8>> = dryoc::dryocbox::DryocBox::from_parts(SB::<16>::from(&tag), w[16..].to_vec(), None);
+                let kp: dryoc::keypair::KeyPair<SB<32>, SB<32>> = dryoc::keypair::KeyPair::from_slices(&fx.ks.pk_b, &fx.ks.sk_b).unwrap();
+                b.unseal::<_, _, Vec<u8>>(&kp).is_ok()
+            }))
+        }),
+    });
     let stream_sample = |fx: &Fixture, n: usize| {
         let mut st = sodium::ss_init_pull(&fx.stream_header, &fx.stream_key);
         sodium::ss_push(&mut st, &vec![0x62u8; n.saturating_sub(17)], None, 0)
